@@ -50,6 +50,12 @@ CHECKS = {
  "C02": ("exploration", "icontract post-conditions on SignalNamespace.get_name / build_signal_namespace + declaration parser over emitted text + fresh-process reproducibility runs",
          "Generated hostile designs (nested repeated hierarchies, equal names, digit/suffix-like/reserved/underscore overrides, memories, instances, shim on and off) are named through the real namer in several request orders and converted; names must be pairwise distinct, stable, legal and outside an independently written IEEE 1364-2005 + 1800-2017 keyword list, every identifier declared once in the text, and the text identical across fresh processes with different PYTHONHASHSEED.",
          "trusted: icontract, lib/models/verilog_keywords.py (independent keyword list), the declaration parser in props/c02lib.py", "4 C02"),
+ "C17": ("exploration", "line-code monitors (bit-counted running disparity, run length, comma windows, ones-count validity) on the real encoder/decoder; exhaustive symbol sweep, pair/triple streaming, stall schedules on the stream wrappers",
+         "All 256+12 symbols x both disparities round-trip through the real Encoder(nwords 1..4, msb/lsb) and Decoder; ordered data pairs x disparities and random triples are streamed while monitors recompute disparity by counting bits and scan for runs > 5 and comma windows across symbol boundaries; every 10-bit word checks invalid iff ones not in {4,5,6}; StreamEncoder/StreamDecoder loop-backs under stall and gap schedules.",
+         "trusted: simulator, monitors in props/c17lib.py written from the statement (no table re-implementation)", "4 C17"),
+ "C18": ("fault_enumeration", "bit-flip enumeration on the real ECCEncoder -> flip mask -> ECCDecoder chain with oracles from the statement",
+         "Widths 1..128; data exhaustive for k <= 8, otherwise zero/ones/walking-one/random; every single flip position incl. the parity bit (all widths in thorough, 54 widths fully swept in quick), every double flip for code words up to 41 bits and sampled pairs (always incl. parity-bit pairs) above; enable=0 pass-through.",
+         "trusted: simulator Evaluator driven directly (combinational design asserted), oracle in props/c18.py", "4 C18"),
 }
 
 def main():
